@@ -171,6 +171,8 @@ class MSys:
             return "add_atom(with-charge)" if op[2] == "ch" else "add_atom(no-charge)"
         if k == "new":
             return "new_atom"
+        if k == "add_at":
+            return "add_atom(coord=row-view)"
         if k == "add_bad":
             return "add_atom(bad-coord)"
         if k == "del":
@@ -470,6 +472,10 @@ class MSys:
         for e in E:
             ops.append(("add", e, "noch"))
         ops.append(("new", self.elem0))
+        if n >= 1:
+            ops.append(("add_at", self.elem0, 0))
+            if self.full and n >= 2:
+                ops.append(("add_at", self.elem0, n - 1))
         ops.append(("add_bad",))
         for i in range(n):
             ops.append(("del", "idx", i))
@@ -548,18 +554,39 @@ class MSys:
         validity = "valid"  # "valid": must not raise | "invalid": must change nothing | "either"
         predict = None  # exact model step, or "generic"
         call = None
+        post = None  # routine-specific contract checked after the generic bookkeeping
 
         if kind == "add":
             _, e, mode = op
             aid = self._fresh(st)
             a = Atom(e, label=label_of(aid))
             xyz = coord_of(aid, self.pose)
+            arg = list(xyz)
             if mode == "ch" and has_q:
                 ch = charge_of(aid)
-                call = lambda: m.add_atom(a, list(xyz), ch)
+                call = lambda: m.add_atom(a, arg, ch)
             else:
                 ch = UNSPEC
-                call = lambda: m.add_atom(a, list(xyz))
+                call = lambda: m.add_atom(a, arg)
+
+            def predict():
+                st.atoms[aid] = Rec(a, e, label_of(aid), xyz, ch)
+                st.ident[id(a)] = aid
+
+            def post():
+                if tuple(arg) != xyz:
+                    return "argument-overwritten", f"add_atom changed the coordinate list it was handed: {arg} (was {list(xyz)})"
+                return None, None
+
+        elif kind == "add_at":
+            # "put an atom where atom i is": the argument is the row view get_atom_coord returns, so the
+            # new row aliases the molecule's own array unless add_atom copies it
+            _, e, i = op
+            aid = self._fresh(st)
+            a = Atom(e, label=label_of(aid))
+            xyz = st.atoms[aid_at(i)].coord
+            ch = charge_of(aid) if has_q else UNSPEC
+            call = (lambda: m.add_atom(a, m.get_atom_coord(i), ch)) if has_q else (lambda: m.add_atom(a, m.get_atom_coord(i)))
 
             def predict():
                 st.atoms[aid] = Rec(a, e, label_of(aid), xyz, ch)
@@ -706,6 +733,32 @@ class MSys:
             b = list(m.bonds)[op[1]]
             a1, a2 = (b.a1, b.a2) if op[2] == 0 else (b.a2, b.a1)
             call = lambda: m.remove_substituent(a1, a2)
+            # the routine's contract: the attachment point it creates REPLACES a2 at a2's position
+            # (that is what makes the fragment usable by join).  The position is a value the library
+            # reads itself before it deletes atoms and hands to add_atom afterwards: it must survive
+            # the deletions.  Expected value = the model's coordinate of a2 before the call.
+            a2_aid = st.ident.get(id(a2))
+            a2_xyz = st.atoms[a2_aid].coord if a2_aid in st.atoms else UNSPEC
+            before_ids = set(st.atoms)
+
+            def post():
+                new = [aid for aid in st.atoms if aid not in before_ids]
+                if a2_xyz is UNSPEC or a2_aid in st.atoms or len(new) != 1:
+                    return None, None  # some other semantics (a2 kept / nothing created): nothing is demanded here
+                real_now = list(m.atoms)
+                pos = next((i for i, a in enumerate(real_now) if a is st.atoms[new[0]].obj), None)
+                c = m.coords
+                if pos is None or not isinstance(c, np.ndarray) or c.shape != (len(real_now), 3):
+                    return None, None  # verify() reports the shape problem
+                row = tuple(c[pos].tolist())
+                if not all(_feq(row[i], a2_xyz[i]) for i in range(3)):
+                    whose = [k for k, r in st.atoms.items() if r.coord is not UNSPEC and all(_feq(row[i], r.coord[i]) for i in range(3))]
+                    return (
+                        "attachment-point-not-at-the-removed-atom's-position",
+                        f"remove_substituent created the attachment point at {row}; the removed atom #{a2_aid} was at {a2_xyz}" + (f" (that is the position of atom(s) {whose})" if whose else ""),
+                    )
+                st.atoms[new[0]].coord = a2_xyz
+                return None, None
 
         elif kind in ("addH", "addH1"):
             validity = "either"  # numeric preconditions of the placement are C16's subject
@@ -733,8 +786,12 @@ class MSys:
                     pass  # silently ignoring an impossible request is compatible with the text
                 elif predict == "generic":
                     sym, what = self.derive(st)
+                    if sym is None and post is not None:
+                        sym, what = post()
                 else:
                     predict()
+                    if post is not None:
+                        sym, what = post()
             except _Sym as s:
                 sym, what = s.args
         else:
@@ -1096,6 +1153,11 @@ def _repro_of(hist, pose):
             live.add(aid)
             ch = f", {charge_of(aid)!r}" if (op[2] == "ch" and has_q) else ""
             L.append(f"m.add_atom(Atom({op[1]!r}, label={label_of(aid)!r}), {list(coord_of(aid, pose))!r}{ch})")
+        elif k == "add_at":
+            aid = fresh()
+            live.add(aid)
+            ch = f", {charge_of(aid)!r}" if has_q else ""
+            L.append(f"m.add_atom(Atom({op[1]!r}, label={label_of(aid)!r}), m.get_atom_coord({op[2]}){ch})")
         elif k == "new":
             aid = fresh()
             live.add(aid)
@@ -1129,7 +1191,8 @@ def _repro_of(hist, pose):
             L.append("try: m.del_bond(Bond(Atom('F'), Atom('Cl')))\nexcept Exception as e: print('raised', type(e).__name__)")
         elif k == "rmsub":
             a, b = ("a1", "a2") if op[2] == 0 else ("a2", "a1")
-            L.append(f"b = m.bonds[{op[1]}]; m.remove_substituent(b.{a}, b.{b})")
+            L.append(f"b = m.bonds[{op[1]}]; a2 = b.{b}; was = m.get_atom_coord(a2).copy(); m.remove_substituent(b.{a}, a2)")
+            L.append("print('removed atom was at', was.tolist(), '; attachment point created at', m.coords[-1].tolist())")
         elif k == "addH":
             L.append("m.add_implicit_hydrogens()")
         elif k == "addH1":
@@ -1194,6 +1257,13 @@ def run(ctx):
         "only together with one of its atoms, parents and indices are right; those two routines may also raise",
         "append_bond(s) with an atom the molecule has never seen may adopt it (then it needs a coordinate row and a numeric "
         "charge like every atom) or refuse it",
+        "remove_substituent(a1, a2): by the routine's contract the attachment point it creates replaces a2 AT a2's POSITION - that "
+        "is the coordinate the new atom 'was given' (a value the library reads before it deletes atoms and writes afterwards); "
+        "demanded exactly when a2 is gone and exactly one atom was created, otherwise nothing is demanded of the routine's semantics. "
+        "add_implicit_hydrogens computes every position before its first write and never deletes, join / concatenate build a new "
+        "object: no other routine in scope has the read-delete-write shape; where hydrogens go is C16",
+        "stale user-held row views across add/del are not part of the claim; a row view handed INTO add_atom (add an atom where atom i "
+        "is) must be copied: the new atom keeps that value",
         "values nobody specified (charge of add_atom without charge, position of an implicit hydrogen) need only be numeric "
         "(NaN counts as numeric) and are pinned to what the object reports; clone / unpickled start states are taken as they "
         "report themselves (fidelity of copies is C06)",
